@@ -624,6 +624,18 @@ impl<'tcx> Cx<'tcx> {
         let body = tcx.optimized_mir(did);
         s.push(',');
         s.push_str(&self.body(did, body));
+        // promoted constants (e.g. `('a'..='f')` behind a reference): small bodies computing the constant
+        s.push_str(",\"promoted\":[");
+        let proms = tcx.promoted_mir(did);
+        for (i, pb) in proms.iter().enumerate() {
+            if i > 0 {
+                s.push(',');
+            }
+            s.push('{');
+            s.push_str(&self.body(did, pb));
+            s.push('}');
+        }
+        s.push(']');
         s.push('}');
         s
     }
